@@ -1,8 +1,9 @@
 \* pickle AS BUILT (the copy keeps the serial): TLC must refute SerialsUnique (selftest only)
 CONSTANTS N = 4  Par = {"p", "q"}  NVal = 2  NGrid = 2  MaxDepth = 1  MaxLevel = 3
-          GridSlot = "stack"  PickleSerial = "kept"
+          GridSlot = "stack"  PickleSerial = "kept"  DbSerial = "max"
 CONSTANTS Keeps <- KeepsNone  Acts <- ActsAsBuilt  Parent0 <- ParentD  Cls0 <- ClsD
           ParOf <- McParOf  GridCls <- McGridCls  MatCls <- McMatCls
+          DbCls <- McDbCls  CopyCls <- McAllCls  CallsOf <- McCallsOf
 INIT Init
 NEXT Next
 CONSTRAINT Bound
